@@ -330,8 +330,10 @@ def inline_new_temps(tree, modname):
                             # x[a:b][:] = w  is  x[a:b] = w
                             if isinstance(x_, ast.Assign):
                                 for k_, t_ in enumerate(x_.targets):
-                                    if (isinstance(t_, ast.Subscript) and isinstance(t_.slice, ast.Slice) and t_.slice.lower is None and t_.slice.upper is None
-                                            and t_.slice.step is None and isinstance(t_.value, ast.Subscript) and isinstance(t_.value.slice, ast.Slice)):
+                                    whole_ = isinstance(t_, ast.Subscript) and (
+                                        (isinstance(t_.slice, ast.Slice) and t_.slice.lower is None and t_.slice.upper is None and t_.slice.step is None)
+                                        or (isinstance(t_.slice, ast.Constant) and t_.slice.value is Ellipsis))
+                                    if (whole_ and isinstance(t_.value, ast.Subscript) and isinstance(t_.value.slice, ast.Slice)):
                                         inner_ = t_.value
                                         inner_.ctx = ast.Store()
                                         x_.targets[k_] = inner_
@@ -540,7 +542,9 @@ def _stable_pure_expr(fn, blk, i, st, uses, stores):
         return False
     names = {x.id for x in ast.walk(st.value) if isinstance(x, ast.Name)}
     attrs = {ast.unparse(x) for x in ast.walk(st.value) if isinstance(x, ast.Attribute)}
-    for s_ in following:
+    # only the statements up to the last use matter (inside a loop the definition is evaluated again on the next round)
+    last = max((k for k, s_ in enumerate(following) if any(id(x) in {id(u) for u in uses} for x in ast.walk(s_))), default=-1)
+    for s_ in following[:last + 1]:
         for x in ast.walk(s_):
             if isinstance(x, ast.Name) and isinstance(x.ctx, (ast.Store, ast.Del)) and x.id in names:
                 return False
